@@ -2340,8 +2340,12 @@ mod fields_ext {
                 _ => {}
             }
             Ok(match ty {
+                // `(T,)` written for a single field is the one-element tuple type itself, not a
+                // list of per-field types.
                 syn::Type::Tuple(syn::TypeTuple { elems, .. })
-                    if self.len() > 1 || elems.len() == self.len() =>
+                    if self.len() > 1
+                        || (elems.len() == self.len()
+                            && !(self.len() == 1 && elems.trailing_punct())) =>
                 {
                     Either::Left(elems.iter())
                 }
